@@ -474,7 +474,7 @@ func (c *Ctx) ruleR13d(rule string) {
 	}
 	if u, ok := lc.Call.Args[1].(*ssa.UnOp); ok && u.Op == token.MUL && lc.Call.Args[0] == uctxL {
 		if ia, ok := u.X.(*ssa.IndexAddr); ok {
-			if isChildrenOfRecv(ia.X) && (isFullRangeIndex(ia.Index, ia.X) || indexLoopOf(ia.Index, ia.X) != nil) {
+			if isChildrenOfRecv(ia.X) && (isFullRangeIndex(ia.Index, ia.X) || indexLoopOf(ia.Index, ia.X) != nil || fullRangeOverField(ia.Index, isChildrenOfRecv)) {
 				okArg = true
 				idx = ia.Index
 			}
@@ -521,7 +521,24 @@ func (c *Ctx) ruleR13d(rule string) {
 			abort = true
 		}
 	}
-	if abort && hc != nil {
+	delegated := false
+	if hc != nil {
+		// Transform hands the helper's pair on unchanged ...
+		for _, r := range ssax.Returns(fn) {
+			if len(r.Results) == 2 && isExtractOf(r.Results[0], hc, 0) && isExtractOf(r.Results[1], hc, 1) {
+				delegated = true
+			}
+		}
+	}
+	if abort && hc != nil && delegated {
+		// ... so the helper itself must return (nil, err)
+		abort = false
+		for _, e := range ssax.Extracts(lc, 1) {
+			if errorReturned(lcFn, e, true) {
+				abort = true
+			}
+		}
+	} else if abort && hc != nil {
 		// the helper's error reaches Transform's caller as (nil, err)
 		abort = errorReturned(fn, hc, true)
 	}
@@ -537,7 +554,19 @@ func (c *Ctx) ruleR13d(rule string) {
 			loopHead = b // the outermost block of the cycle: the loop header
 		}
 	}
-	if hc != nil {
+	if hc != nil && delegated {
+		// the helper returns the receiver (with a nil error) only after the loop
+		for _, r := range ssax.Returns(lcFn) {
+			if len(r.Results) != 2 || ssax.Strip(r.Results[0]) != recvL {
+				continue
+			}
+			if loopHead.Dominates(r.Block()) && ssax.IsNilConst(r.Results[1]) {
+				c.R.Hold(rule, lname+" return @"+c.P.InstrPos(r), "receiver returned after the child loop")
+			} else {
+				c.R.Violation(rule, name+" returns itself without transforming children", lname, c.P.InstrPos(r), "a path returns the node unchanged without passing through the loop over its children: descendants with their own transformers are not transformed and their errors are swallowed")
+			}
+		}
+	} else if hc != nil {
 		// in the helper a nil error is returned only after the loop
 		for _, r := range ssax.Returns(lcFn) {
 			last := r.Results[len(r.Results)-1]
@@ -684,6 +713,42 @@ func (c *Ctx) aboutInterpreterOnly(v ssa.Value, depth int) bool {
 	case *ssa.TypeAssert:
 		if _, f, ok := fieldLoad(x.X); ok && f == interp {
 			return true
+		}
+	}
+	return false
+}
+
+// fullRangeOverField: idx is the index of a rotated range loop (phi(-1, idx) + 1 tested against len(x)) where x is
+// another load of the same field the indexed slice was loaded from.
+func fullRangeOverField(idx ssa.Value, isField func(ssa.Value) bool) bool {
+	b, ok := idx.(*ssa.BinOp)
+	if !ok || b.Op != token.ADD || b.Referrers() == nil {
+		return false
+	}
+	one, isC := ssax.ConstInt(b.Y)
+	phi, isP := b.X.(*ssa.Phi)
+	if !isC || one != 1 || !isP {
+		return false
+	}
+	start, loop := false, false
+	for _, e := range phi.Edges {
+		if k, ok := ssax.ConstInt(e); ok && k == -1 {
+			start = true
+		}
+		if e == idx {
+			loop = true
+		}
+	}
+	if !start || !loop {
+		return false
+	}
+	for _, r := range *b.Referrers() {
+		if cmp, ok := r.(*ssa.BinOp); ok && cmp.Op == token.LSS && cmp.X == idx {
+			if l, ok := cmp.Y.(*ssa.Call); ok {
+				if bi, ok := l.Call.Value.(*ssa.Builtin); ok && bi.Name() == "len" && isField(l.Call.Args[0]) {
+					return true
+				}
+			}
 		}
 	}
 	return false
